@@ -802,6 +802,11 @@ pub fn prepare(crate_name: &str, specs: Vec<(&'static str, Spec)>) -> Prepared {
     let mut excluded = vec![];
     for (i, r) in res.iter().enumerate() {
         match r {
+            // rustc needs minutes and gigabytes for multi-megabyte state machines; such
+            // expansions (normal ones are 5-300 KB) are kept away from it — no verdict
+            Expand::Ok { len, .. } if *len > 6_000_000 => {
+                excluded.push((i, format!("expansion is {} bytes: not handed to rustc", len)))
+            }
             Expand::Ok { .. } => usable.push(i),
             other => excluded.push((i, format!("macro expansion: {}", other.short()))),
         }
